@@ -35,6 +35,11 @@ PROPS = {
     "C15": {"engines": ["P"], "quick_s": 60, "thorough_s": 900,
             "oracle_filter": "C15", "level": "exploration"},
 }
+# Deterministic floor per engine and second of budget: run indexes below floor*budget are explored
+# whatever the machine load (up to HARD_FACTOR x budget of wall time); the wall budget only decides
+# how much further a batch goes.  About half of what an idle 16-core sandbox does.
+FLOOR_PER_S = {"K": 70, "S": 90, "T": 6, "P": 0.9}
+HARD_FACTOR = 2.5
 CRASH_PROPS = {  # property a confirmed crash/hang is attributed to, by engine and phase prefix
     # only a crash/hang while machine code of a kernel runs is a violation; a slow or crashing
     # *generation* is C08's business (not claimed) and is counted as skipped
@@ -210,10 +215,12 @@ def load_known():
 
 
 def run_batch(prop, engine, tier, batch_seed, budget_s, max_runs=None, env=None, nw=NW,
-              log=print):
+              log=print, floor=True):
     """Run one engine's batch.  Returns aggregate dict."""
     q = queue.Queue()
     deadline = time.time() + budget_s
+    min_index = int(FLOOR_PER_S.get(engine, 0) * budget_s) if floor and max_runs is None else 0
+    worker_hard = time.time() + budget_s * (HARD_FACTOR if min_index else 1.0)
     workers = {}
     agg = {"engine": engine, "runs": 0, "ok": 0, "skipped": {}, "violations": [],
            "harness_errors": [], "stats": {}, "probes": {}, "digests": {}, "shapes": {},
@@ -225,7 +232,8 @@ def run_batch(prop, engine, tier, batch_seed, budget_s, max_runs=None, env=None,
     def spawn(w, start):
         cfg = {"mode": "batch", "engine": engine, "prop": prop, "batch_seed": batch_seed,
                "w": w, "nw": nw, "deadline": deadline, "start": start, "hashseed": w % 8,
-               "tier": tier, "watchdog_s": watchdog, "env": env}
+               "tier": tier, "watchdog_s": watchdog, "env": env,
+               "min_index": min_index, "hard_deadline": worker_hard}
         if max_runs is not None:
             cfg["max_runs"] = max_runs
         workers[w] = Worker(cfg, q, w)
@@ -233,8 +241,9 @@ def run_batch(prop, engine, tier, batch_seed, budget_s, max_runs=None, env=None,
     for w in range(nw):
         spawn(w, 0)
     alive = set(range(nw))
-    hard_deadline = deadline + watchdog + 90
+    hard_deadline = worker_hard + watchdog + 90
     t0 = time.time()
+    agg["floor_index"] = min_index
     while alive:
         try:
             w, obj = q.get(timeout=5)
@@ -306,11 +315,12 @@ def run_batch(prop, engine, tier, batch_seed, budget_s, max_runs=None, env=None,
                                                   "error": f"worker {w} exited rc={obj['rc']} outside a run",
                                                   "tb": "".join(wk.stderr_tail[-15:])})
                     continue
-                if time.time() < deadline and agg["worker_restarts"] < 200:
+                if time.time() < (worker_hard if nxt < min_index else deadline) and agg["worker_restarts"] < 200:
                     agg["worker_restarts"] += 1
                     spawn(w, nxt)
                     alive.add(w)
-            elif wk.summary.get("retired") and time.time() < deadline and len(agg["violations"]) < 40:
+            elif wk.summary.get("retired") and len(agg["violations"]) < 40 and time.time() < (
+                    worker_hard if wk.summary["next"] < min_index else deadline):
                 agg["worker_restarts"] += 1
                 spawn(w, wk.summary["next"])
                 alive.add(w)
